@@ -373,6 +373,43 @@ def relink_case(ctx, i, rng, res):
     return res
 
 
+KIND_MISMATCH = """module kinds
+  implicit none
+  type :: kt
+    integer :: kc
+  contains
+    procedure :: kb => ksub
+  end type kt
+  integer, target :: kvar
+  integer, pointer :: kp_sub => ksub
+  integer, pointer :: kp_type => kt
+  procedure(kvar), pointer :: kpp_var => kvar
+  procedure(kt), pointer :: kpp_type => null()
+  type(ksub) :: kobj_sub
+  type(kvar) :: kobj_var
+  interface kgen
+    module procedure kvar, kt, ksub
+  end interface kgen
+contains
+  subroutine ksub(self)
+    class(kt) :: self
+    associate (ka_sub => ksub, ka_type => kt, ka_mod => kinds, ka_gen => kgen, ka_bind => self%kb)
+      ka_sub = 1
+      ka_type = ka_mod + ka_gen
+      kp_sub = kp_type + ka_bind
+      call kvar()
+      call kt%kc()
+      kobj_sub%kc = kobj_var%kc + kpp_var%kc
+    end associate
+    select type (ks => ksub)
+    type is (kvar)
+      ks = 1
+    end select
+  end subroutine ksub
+end module kinds
+"""
+
+
 def edit_query_case(ctx, i, rng, res):
     """unsaved in-line edits of an open document interleaved with positional requests: every range answered must address the buffer as it is
     now (caches keyed on the saved state, columns taken from an earlier version of a line)"""
@@ -444,7 +481,10 @@ def generated_case(ctx, i, rng, res):
     quick = ctx.tier == "quick"
     w = MD.gen_workspace(rng, style=MD.Style(rng) if rng.random() < 0.5 else None, tight=rng.random() < 0.3)
     files = dict(w.files)
-    if rng.random() < 0.25:
+    if rng.random() < 0.12:
+        # links whose target is an entity of another kind than the linking statement expects
+        files = {"kinds.f90": KIND_MISMATCH}
+    elif rng.random() < 0.25:
         # submodule + INCLUDEd fragments (short files included deep inside longer ones)
         from vf import hostassoc as HA
         files = HA.gen(rng)[0]
